@@ -785,7 +785,9 @@ def _numeric(ctx):
                                       'converted back (lon, lat, h)': list(back) if back else (r2 if not ok else repr(r2)), 'tolerance': '1e-9 degree (of arc), 1 mm'}
     # ENU relative to one base -> ENU relative to another
     f_rr = ctx.prog.func(OC + '.ENUCoords.toENUCoords')
-    for b1, b2 in ((BASES[0], (2.36, 48.86, 40.0)), (BASES[2], (0.01, -0.01, 5.0))):
+    # (the second base may stand on the vertical of the first: same longitude and latitude, another height)
+    for b1, b2 in ((BASES[0], (2.36, 48.86, 40.0)), (BASES[2], (0.01, -0.01, 5.0)), (BASES[0], (BASES[0][0], BASES[0][1], 155.0)), (BASES[0], (BASES[0][0], BASES[0][1], 0.0)),
+                   (BASES[1], (BASES[1][0], BASES[1][1], 9000.0))):
         for (dlo, dla, dh) in OFFS[1:4]:
             p = (b1[0] + dlo * 0.1, b1[1] + dla * 0.1, b1[2] + dh)
             n_r += 1
